@@ -24,8 +24,12 @@ def code_of(path, V):
 
 
 class TableLM(MixableSequentialLanguageModel):
-    def __init__(self, V, tables, D=None, dtype=torch.double):
+    def __init__(self, V, tables, D=None, dtype=torch.double, strict=False):
+        """strict: never look at more of `hist` than the single token at idx - 1; the threaded state is
+        trusted to describe everything before it (as a recurrent model would).  A stale or mis-routed
+        state then yields the scores of a different path."""
         super().__init__(V)
+        self.strict = strict
         self.tables = tables
         self.D = D
         self.dtype = dtype
@@ -50,6 +54,12 @@ class TableLM(MixableSequentialLanguageModel):
         code, ln = prev["code"].clone(), prev["len"].clone()
         for j in range(N):
             i = int(idx[j])
+            if self.strict:
+                if i > 0:
+                    tok = int(hist[i - 1, j]) if i - 1 < hist.size(0) else 0
+                    code[j] = code[j] * (V + 1) + min(max(tok, 0), V - 1) + 1
+                    ln[j] += 1
+                continue
             # fold in the tokens between the threaded length and idx (normally exactly one)
             while int(ln[j]) < i:
                 code[j] = code[j] * (V + 1) + int(hist[int(ln[j]), j]) + 1
